@@ -73,6 +73,10 @@ def cases(rng, tier):
             if op["op"] == "recreate":
                 op["n"] = 2
             c["ops"] = [op, {"op": "restore"}, W.gen_domain_op(rng, ["shift_y", "append", "repeat"])]
+            if rng.random() < 0.5:
+                # right after the restore the caller edits, in place, what get() hands out: working series only -
+                # the restored reference and the original are their own arrays
+                c["ops"].insert(2, W.gen_poke_op(rng))
             yield c
     for _ in range(n_):
         yield gen(rng)
